@@ -84,7 +84,7 @@ def gen_gt(rng, idx, small=True):
             if k == 2 and rng.chance(1, 3):
                 # NOT padding: a second component that some number parsers accept but that is not all-numeric characters
                 ln = rng.range(1, 6)
-                nm = rng.choice([b"+5", b"-1", b"1_0", b"12a", b" 7", b"7 ", b"0x10", b"1e3"])
+                nm = rng.choice([b"+5", b"-1", b"1_0", b"12a", b" 7", b"7 ", b"0x10", b"1e3"]) + b"%d" % i    # distinct per file (no duplicate paths)
                 files.append(TFile(ln, [b".pad", nm], bytes(ln) if rng.chance(1, 2) else gen_content(rng, ln)))
                 continue
             ln = 0 if k == 1 else rng.range(1, 12)
